@@ -9,6 +9,7 @@
   positive denominators.  `mpq_equal` is in Props/C12.lean (`mpq_equal_iff`).
 -/
 import MpirProofs.Lemmas.Mpq
+import MpirProofs.Lemmas.MpqConv
 namespace Mpir.Mpq
 
 /-- mpq_cmp: negative / zero / positive exactly when op1 < / = / > op2 as rational numbers — for any
@@ -88,5 +89,49 @@ theorem mpq_cmp_si_spec (q : Nat) (n : Int) (d : Nat) (h : Heap) (h1 : 0 < (h q)
 
 example : (cmp_si 1 (-(2 ^ 63)) 1 (fun _ => ⟨-(2 ^ 63), 1⟩)).map Int.sign = some 0 := by decide +kernel
 example : (cmp_si 1 (-7) 2 (fun _ => ⟨-10, 3⟩)).map Int.sign = some 1 := by decide +kernel
+
+/-- mpq_get_d: zero gives +0.0; for a non-zero operand with positive denominator the result is the
+    double obtained by truncating |n/d| toward zero (`truncDbl`: 53 significant bits for normal results,
+    multiples of 2^-1074 in the denormal range, infinity when the leading bit has exponent ≥ 1024, +0.0
+    below the smallest denormal), with the sign of the numerator.  `E` is the exponent of the leading
+    bit of |n/d|; it is unique, so quantifying over it is no restriction.  Covers both the zero-padding
+    and the limb-chopping path of get_d.c and the truncating division. -/
+theorem mpq_get_d_spec (src : Nat) (h : Heap) (hd : 0 < (h src).den) :
+    ((h src).num = 0 → get_d src h = 0) ∧
+    ((h src).num ≠ 0 → ∀ E : ℤ, (2 : ℚ) ^ E ≤ |(h src).toRat| → |(h src).toRat| < (2 : ℚ) ^ (E + 1) →
+      get_d src h = truncDbl (if (h src).num < 0 then 2 ^ 63 else 0) |(h src).toRat| E) := by
+  rw [get_d_eq]
+  refine ⟨fun h0 => by simp [h0], fun h0 E hE1 hE2 => ?_⟩
+  rw [if_neg h0]
+  have hn : (h src).num.natAbs ≠ 0 := by omega
+  have hdn : (h src).den.natAbs ≠ 0 := by omega
+  obtain ⟨q1, q2⟩ := getDQuot_spec hn hdn
+  have habs : |(h src).toRat| = ((h src).num.natAbs : ℚ) / ((h src).den.natAbs : ℚ) := by
+    unfold Q.toRat
+    rw [abs_div, Nat.cast_natAbs, Nat.cast_natAbs, Int.cast_abs, Int.cast_abs]
+  have hx : 0 < |(h src).toRat| := by
+    rw [habs]; have : (0 : ℚ) < ((h src).num.natAbs : ℚ) := by exact_mod_cast Nat.pos_of_ne_zero hn
+    have : (0 : ℚ) < ((h src).den.natAbs : ℚ) := by exact_mod_cast Nat.pos_of_ne_zero hdn
+    positivity
+  rw [← habs] at q1
+  have := getDBits_trunc (decide ((h src).num < 0)) _ _ _ E hx q1 q2 hE1 hE2
+  simpa using this
+
+-- non-vacuity: 1/3 -> 0x3FD5555555555555 (truncated, not rounded), -1/3, overflow to +inf, a denormal,
+-- underflow to +0.0; and the hypotheses of the theorem are satisfiable (E = -2 for 1/3)
+example : get_d 1 (fun _ => ⟨1, 3⟩) = 0x3FD5555555555555 := by decide +kernel
+example : get_d 1 (fun _ => ⟨-1, 3⟩) = 0xBFD5555555555555 := by decide +kernel
+example : get_d 1 (fun _ => ⟨2 ^ 1024, 1⟩) = 0x7FF0000000000000 := by decide +kernel
+example : get_d 1 (fun _ => ⟨3, 2 ^ 1074⟩) = 3 := by decide +kernel
+example : get_d 1 (fun _ => ⟨-1, 2 ^ 1080⟩) = 0 := by decide +kernel
+example : truncDbl 0 (1 / 3) (-2) = 0x3FD5555555555555 := by
+  unfold truncDbl
+  have h : ⌊(1 / 3 : ℚ) * (2 : ℚ) ^ ((52 : ℤ) - (-2))⌋₊ = 2 ^ 54 / 3 := by
+    rw [← Nat.floor_div_eq_div (K := ℚ)]
+    congr 1; norm_num
+  norm_num [h]
+  decide
+example : (2 : ℚ) ^ (-2 : ℤ) ≤ |(⟨1, 3⟩ : Q).toRat| ∧ |(⟨1, 3⟩ : Q).toRat| < (2 : ℚ) ^ ((-2 : ℤ) + 1) := by
+  norm_num [Q.toRat, abs_of_pos]
 
 end Mpir.Mpq
